@@ -858,8 +858,47 @@ void build_inputs(fixture const &fx, world const &w, std::string const &entry, i
 
 std::string world_name(world const &w) { return std::string(w.wide ? "wchar_t" : "char") + "," + sk_name(w.sk); }
 
+// as_struct<Result>: documented as Result{t_1,...,t_n} - list-initialisation.  For a Result with an initializer_list
+// constructor next to a constructor of the same arity (std::vector<int>: {3,7} is two elements, (3,7) three sevens) the two
+// spellings differ; the value of the derivation is the braced one.
+void as_struct_list_initialisation()
+{
+  std::string const e = "static/as_struct/list-initialisation";
+  if (!vf::entry_enabled(e) || !vf::mine(vf::hash_str(e)))
+    return;
+  vf::set_entry(e);
+  namespace sk = fcppt::parse::skipper;
+  auto const two = p::as_struct<std::vector<int>>(p::int_<int>{} >> p::literal{','} >> p::int_<int>{});
+  auto const three = p::as_struct<std::vector<int>>(p::int_<int>{} >> p::literal{','} >> p::int_<int>{} >> p::literal{','} >> p::int_<int>{});
+  struct sample
+  {
+    char const *text;
+    std::vector<int> want;
+  } const samples[] = {{"3 , 7", {3, 7}}, {"2,2", {2, 2}}, {"0 ,5", {0, 5}}, {"1,2,3", {1, 2, 3}}, {"4 , 0 , 4", {4, 0, 4}}};
+  for (sample const &sm : samples)
+  {
+    if (!vf::begin_case("as_struct<std::vector<int>> on \"%s\"", sm.text))
+      continue;
+    vf::note_distinct(vf::hash_mix(vf::hash_str(e), vf::hash_str(sm.text)));
+    auto const check = [&](auto const &parser) {
+      auto const r = p::phrase_parse_string(parser, std::string{sm.text}, sk::space());
+      if (!r.has_success())
+        vf::violation("static/as_struct/list-initialisation/failure", "mismatch", std::string("input ") + sm.text);
+      else if (r.get_success_unsafe() != sm.want)
+        vf::violation("static/as_struct/list-initialisation/value", "mismatch",
+                      std::string("input ") + sm.text + ": " + std::to_string(r.get_success_unsafe().size()) + " elements, documented Result{t_1,...,t_n} has " + std::to_string(sm.want.size()));
+      VF_COUNT("static/value/as_struct-list-initialisation");
+    };
+    if (sm.want.size() == 2)
+      check(two);
+    else
+      check(three);
+  }
+}
+
 void body()
 {
+  as_struct_list_initialisation();
   // a fixture is registered once per translation unit (= world) it occurs in: merge by name
   std::vector<fixture> fixtures;
   {
